@@ -191,7 +191,7 @@ SAFE = set("ABCDEFGHIJKLMNOPQRSTUVWXYZabcdefghijklmnopqrstuvwxyz0123456789_.-~/%
 
 def check_urls(ctx, case, dep, scripts, sheets, wit):
     md = model_dep(case, scripts, sheets)
-    for lp in ("lib", None, "a/b", "lib x", ""):
+    for lp in ("lib", None, "a/b", "lib x", "", "https://cdn.example.com/assets/lib", "//cdn.example/x", "a//b", "./lib", "/abs/lib", "lib/", "file:///srv/www/lib"):
         for iv in (True, False):
             ctx.count("oracle.urls")
             d = dep.as_dict(lib_prefix=lp, include_version=iv)
